@@ -32,11 +32,27 @@ pub(crate) fn vk_executor(store: Arc<Store<u64, u64>>, policy: Arc<AdmissionPoli
     ex.sender.vk_set_class(vs::CL_CMD_QUEUE);
     (ex, slot)
 }
+/// The sequential model cannot suspend a thread: a worker that finds the queue empty *parks* (its body ends).
+/// To let the worker continue later, stash a FRESH body of the real worker closure (`CommandExecutor::spin`)
+/// on the same queue; returns its stash slot.
+pub(crate) fn vk_respawn_worker(ex: &CommandExecutor<u64, u64>, store: Arc<Store<u64, u64>>, policy: Arc<AdmissionPolicy<u64>>, stats: Arc<ConcurrentStatsCounter>, ticker: Arc<TTLTicker>) -> usize {
+    let slot = vthread::spawned();
+    ex.spin(ex.sender.vk_receiver_handle(), store, policy, stats, ticker);
+    slot
+}
 /// run the stashed worker: it executes whatever is queued and parks when the queue is empty
 pub(crate) fn vk_run_worker(slot: usize) { unsafe { vs::PARKED = false; } vthread::run(slot, 1); }
 pub(crate) fn vk_queue_len(ex: &CommandExecutor<u64, u64>) -> usize { ex.sender.len() }
 pub(crate) fn vk_queue_cap(ex: &CommandExecutor<u64, u64>) -> usize { ex.sender.vk_chan().vk_cap() }
 pub(crate) fn vk_peek(ex: &CommandExecutor<u64, u64>, k: usize) -> Option<CmdView> { ex.sender.vk_chan().vk_peek(k).map(|p| view(&p.command)) }
-pub(crate) fn vk_ack_of(ex: &CommandExecutor<u64, u64>, k: usize) -> Option<Arc<CommandAcknowledgement>> { ex.sender.vk_chan().vk_peek(k).map(|p| p.acknowledgement.clone()) }
-pub(crate) fn vk_chan_stats(ex: &CommandExecutor<u64, u64>) -> (u32, u32, bool) { let c = ex.sender.vk_chan(); (c.sent, c.received, c.fifo_ok) }
+/// address of the acknowledgement of the k-th queued command (no Arc clone / drop: dropping an Arc makes CBMC
+/// explore the drop of its content, down to Waker's function-pointer vtable)
+pub(crate) fn vk_ack_ptr(ex: &CommandExecutor<u64, u64>, k: usize) -> Option<*const CommandAcknowledgement> { ex.sender.vk_chan().vk_peek(k).map(|p| Arc::as_ptr(&p.acknowledgement)) }
+pub(crate) fn vk_chan_stats(ex: &CommandExecutor<u64, u64>) -> (u32, u32, bool) { let c = ex.sender.vk_chan(); (c.sent(), c.received(), c.fifo_ok()) }
 pub(crate) fn vk_receiver_alive(ex: &CommandExecutor<u64, u64>) -> bool { ex.sender.vk_chan().vk_receivers() > 0 }
+
+/// slot array for the command queue; declare it as a LOCAL of the harness function and attach it, so that the
+/// queued commands live in typed stack memory (see the channel model)
+pub(crate) struct QueueStorage([Option<CommandAcknowledgementPair<u64, u64>>; crossbeam_channel::QCAP]);
+pub(crate) fn vk_slots() -> QueueStorage { QueueStorage([None, None, None, None]) }
+pub(crate) fn vk_attach(ex: &CommandExecutor<u64, u64>, slots: &mut QueueStorage) { ex.sender.vk_use_storage(&mut slots.0 as *mut _); }
